@@ -26,6 +26,7 @@ EXPLANATION = (
     "concatenation (stacking unequal blocks cannot return the written bits). C20.5: SYNC rejects a record shorter than the pattern before "
     "correlating, searches a lag window that covers every delay below one pattern length (W >= 2*l - 1), returns argmax of the correlation and a signal sliced from that index. Not decided: behaviour against a simulated "
     "instrument over call histories, SYNC under noise.")
+EXPLANATION += (' Added after the audit wave: C20.5 the delays searched by SYNC are 0 .. l-1 and no more (lag l ties with lag 0 on a repeated pattern); C20.3 the memory clamp of set_data measures the converted, tiled array on its last axis and cuts columns, not rows.')
 TRUSTED = ["numpy clip/arange/tile/split semantics", "IEEE-488.2 definite-length block header format #<k><n>", "documented PPG3204 limits as listed in the property statement"]
 
 DOCUMENTED = {"CHANNELS": 4, "PATT_LEN_MIN": 2, "PATT_LEN_MAX": 2 ** 21, "AMPLITUDE_MIN": 0.3, "AMPLITUDE_MAX": 2, "OFFSET_MIN": -2, "OFFSET_MAX": 3,
@@ -284,6 +285,32 @@ def run(ctx):
                     ctx.unknown("C20.3", sd, q[0], f"set_data framing `{src_of(js)[:90]}`", "block loop not in a recognised form: " + "; ".join(missing))
             else:
                 ctx.check("C20.3", not why, sd, q[0], f"set_data framing `{src_of(js)[:90]}`", "#<k><n><n bits> at consecutive addresses", "; ".join(why))
+    # the memory guard of set_data counts BITS PER CHANNEL: applied to the raw argument, len() counts the per-channel rows of 2-D data
+    # (or the characters of a string) - data that fits is cut by rows, data that does not is written past the end
+    sd0 = ci.methods.get("set_data")
+    if sd0 is not None:
+        ldefs = {}
+        for n in body_nodes(sd0):
+            if isinstance(n, ast.Assign) and len(n.targets) == 1 and isinstance(n.targets[0], ast.Name):
+                ldefs.setdefault(n.targets[0].id, []).append(n.value)
+
+        def expand(e):
+            # a local assigned once stands for its value (n_data = len(data); max_len = self.MAX_MEMORY_LEN - start_addrs + 1)
+            if isinstance(e, ast.Name) and len(ldefs.get(e.id, [])) == 1:
+                return src_of(ldefs[e.id][0])
+            return src_of(e)
+        guards = [n for n in body_nodes(sd0) if isinstance(n, ast.Compare) and len(n.comparators) == 1 and "MAX_MEMORY_LEN" in expand(n.left) + expand(n.comparators[0])]
+        if not guards:
+            ctx.unknown("C20.3", sd0, sd0.node, "set_data memory guard", "no comparison with MAX_MEMORY_LEN")
+        for g in guards:
+            side = g.left if "MAX_MEMORY_LEN" not in expand(g.left) else g.comparators[0]
+            txt = expand(side).replace(" ", "")
+            conv = [n for n in body_nodes(sd0) if isinstance(n, ast.Assign) and src_of(n.targets[0]) == "data" and any(k in src_of(n.value) for k in ("np.array", "np.asarray", "str2array", "np.tile", "atleast_2d"))]
+            # len() / size of the whole container: rows (channels) or all elements - never the bits of one channel once there are rows
+            raw = txt in ("len(data)", "data.size", "np.size(data)", "data.__len__()")
+            ctx.check("C20.3", not raw, sd0, g, f"set_data memory guard: `{src_of(g)}`"[:160], "bits per channel against the room left",
+                      "the guard measures the raw argument: for per-channel rows `len(data)` is the number of channels and for a string the number of characters - 2-bit rows for three channels "
+                      "at the last two addresses lose a channel, six bits at the last three addresses are written past the end of the memory")
     # ---------------- C20.4 read-back reassembly
     gd = ci.methods.get("get_data")
     if gd is None:
